@@ -7,6 +7,7 @@ import sys
 from hypothesis import strategies as st
 
 from .. import audio, pipeline
+from ..gen import rarely
 from ..common import HarnessError, Violation, _blame, hyp_run, import_auditok
 from ..oracles import exact_round, fmt_seconds3
 
@@ -18,7 +19,8 @@ LEVEL = "exploration"
 RULE = (
     "Cases = synthesized recording (0..40 windows, incl. empty and event-free) x split parameters x reader (AudioReader "
     "over a harness source whose every read is a scheduling point, optionally wrapped in a started StreamSaverWorker) x "
-    "observer multiset from {recording observer x0..3, PrintWorker, RegionSaverWorker, AudioEventsJoinerWorker} x a "
+    "observer multiset from {recording observer x0..3, PrintWorker, RegionSaverWorker, AudioEventsJoinerWorker, PlayerWorker over a "
+    "harness player, and - rarely, on streams with 55-70 detections and only 40 spare file descriptors - CommandLineWorker} x a "
     "order in which the threads are started (start_all, or the tokenizer before some or all observers) x "
     "schedule = list of 0..400 small integers (one case in ten: a stream of 66-110 blocks whose consumers are starved, so "
     "inboxes grow beyond 64 entries) choosing, at every yield point (queue put/get/get_nowait, thread start/exit, "
@@ -31,7 +33,8 @@ RULE = (
     "first message and >= 10 context switches."
 )
 MUST_HIT = ["timeout_between_messages", "observer_busy_at_stop_marker", "zero_detections", "with_stream_saver",
-            "free_running_validation", "three_observers", "tokenizer_started_before_some_observer", "queue_backlog_ge_64"]
+            "free_running_validation", "three_observers", "tokenizer_started_before_some_observer", "queue_backlog_ge_64",
+            "command_observer_many_detections", "player_observer"]
 ASSUMPTIONS = [
     "interleavings are explored at the granularity of queue operations, source reads, observer callbacks, thread start/exit and joins (DESIGN 3.4)",
     "liveness judged under the harness's fair continuation after the generated prefix",
@@ -70,6 +73,27 @@ def judge_observers(run, case, exp):
     for d, (_i, b, s, e) in zip(run.tokenizer.detections, exp):
         if d.duration != len(b) / (run.src.sw * run.src.ch) / run.src.sr:
             raise Violation(f"detection {d.id} duration {d.duration!r}", case)
+    if run.player is not None:
+        if run.player.played != [b for _i, b, _s, _e in exp]:
+            raise Violation(f"PlayerWorker played {len(run.player.played)} regions, {len(exp)} detections "
+                            "(or different audio / order)", case)
+    if run.command is not None:
+        # each detection is saved as a wav and handed to the command, in order: the command appends the files
+        import wave as _wave
+
+        got = b""
+        if os.path.exists(run.cmd_log):
+            with open(run.cmd_log, "rb") as fp:
+                blob = fp.read()
+            # the log is a concatenation of wav files: split on the RIFF header
+            parts = [b"RIFF" + x for x in blob.split(b"RIFF") if x]
+            import io as _io
+
+            for part in parts:
+                with _wave.open(_io.BytesIO(part)) as w:
+                    got += w.readframes(w.getnframes())
+        if got != b"".join(b for _i, b, _s, _e in exp):
+            raise Violation("CommandLineWorker did not hand every detection, once and in order, to the command", case)
     if run.printer is not None:
         bps = run.src.sw * run.src.ch
         want = [f"{i} {fmt_seconds3(s)} {fmt_seconds3(e)} {fmt_seconds3(len(b) / bps / run.src.sr)}" for i, b, s, e in exp]
@@ -119,7 +143,8 @@ def judge_files(run, case, exp, blocks):
             name = run.tmpl.format(id=i, start=s, end=e, duration=len(b) / bps / sr)
             want_files[name] = b
         have = {os.path.join(run.dir, f) for f in os.listdir(run.dir)} - {
-            getattr(run, "saver_path", None), getattr(run, "joiner_path", None)}
+            getattr(run, "saver_path", None), getattr(run, "joiner_path", None),
+            getattr(run, "cmd_dir", None), getattr(run, "cmd_log", None)}
         if have != set(want_files):
             raise Violation(
                 f"region files {sorted(os.path.basename(x) for x in have)} != expected "
@@ -173,6 +198,10 @@ def check_case(case, rec):
             classes.add("three_observers")
         if case.get("start", "start_all") != "start_all":
             classes.add("tokenizer_started_before_some_observer")
+        if "command" in case["observers"]:
+            classes.add("command_observer_many_detections")
+        if "player" in case["observers"]:
+            classes.add("player_observer")
         if case.get("long"):
             qmax = max([max((q for _m, q in w._inbox.put_log), default=0) for w in run.workers] or [0])
             if qmax >= 64:
@@ -230,6 +259,8 @@ def explicit_cases():
          "choices": [1] * 40 + [0] * 40 + [2] * 40},
         {"audio": a, "win": [2, 4, 1, False, False], "saver": None, "observers": ["rec", "rec", "print"],
          "choices": [-1] * 30 + [0, 1, 2] * 20, "start": "tokenizer_first"},
+        {"audio": dict(a, B=1, pat="10" * 60, tail=[0, 0]), "win": [1, 1, 0, False, False], "saver": None,
+         "observers": ["player", "command"], "choices": [0, 1, 2] * 30},
         {"audio": dict(a, B=1, pat="10" * 45, tail=[0, 0]), "win": [1, 1, 0, False, False], "saver": {"cache": 0.0},
          "observers": ["rec"], "choices": [-1] * 700, "long": True},
     ]
@@ -243,8 +274,8 @@ TMPL = st.lists(st.sampled_from(["d", "_", "{id}", "{start}", "{end:.3f}", "{dur
 def strategy(draw, maxwin, free=False):
     c = draw(audio.audio_case(maxwin=maxwin, maxB=4, maxmax=6))
     c["audio"]["sr"] = draw(st.sampled_from([10, 100, 8000]))
-    obs = draw(st.lists(st.sampled_from(["rec", "rec", "rec", "print", "regsave", "joiner"]), max_size=4))
-    for k in ("print", "regsave", "joiner"):
+    obs = draw(st.lists(st.sampled_from(["rec", "rec", "rec", "print", "regsave", "joiner", "player"]), max_size=4))
+    for k in ("print", "regsave", "joiner", "player"):
         while obs.count(k) > 1:
             obs.remove(k)
     c["observers"] = obs
@@ -261,7 +292,15 @@ def strategy(draw, maxwin, free=False):
             lambda l: [x for x in l for _ in range(4)]),   # bursty: each thread runs for a while
     ))
     c["start"] = draw(st.sampled_from(["start_all", "start_all", "start_all", "tokenizer_first", "tokenizer_middle"]))
-    r = draw(st.integers(0, 9))
+    if draw(rarely(80)):
+        # a CommandLineWorker among the observers, on a stream with many detections (a shell per detection)
+        c["audio"]["B"] = 1
+        c["audio"]["tail"] = [0, 0]
+        c["audio"]["pat"] = "10" * draw(st.integers(55, 70))
+        c["win"] = [1, 1, 0, False, False]
+        c["observers"] = [o for o in c["observers"] if o != "regsave"][:2] + ["command"]
+        c["choices"] = c["choices"][:60]
+    r = draw(st.sampled_from(range(10)))
     if r == 0:
         # a long stream whose consumers are starved: the last-registered thread (the tokenizer) keeps
         # the baton, so queues grow to the length of the stream (choice -1 = last enabled thread)
